@@ -307,7 +307,11 @@ func (r *renderer) stmt(s Stmt, d int) {
 	}
 	switch s.K {
 	case "line":
-		r.lineT(d, r.parts(s.Text)+r.tags(s.Tags), len(s.Tags) == 0)
+		t := r.parts(s.Text)
+		if s.Cond != nil {
+			t += " " + r.cmd("if"+sp()+l.expr(s.Cond))
+		}
+		r.lineT(d, t+r.tags(s.Tags), len(s.Tags) == 0 && s.Cond == nil)
 	case "opts":
 		for _, o := range s.Opts {
 			t := "->" + sp() + r.parts(o.Text)
